@@ -114,20 +114,27 @@ def encode_varint(value: int) -> bytes:
 
 
 def _encode_reftable_suffix_and_type(value: int) -> bytes:
-    """Encode suffix_and_type using Git-compatible format.
+    """Encode suffix_and_type the way Git does.
 
-    Git uses an additive format instead of proper LEB128:
-    - Values < 128: Single byte (standard)
-    - Values >= 128: Two bytes where byte1 + byte2 = value
+    Git's reftable code does not use LEB128 here but the big-endian
+    variable-width integers known from OFS_DELTA offsets in packs:
+
+    - Values < 128: Single byte
+    - Values 128..255: Two bytes, 0x80 and value - 0x80
+    - Larger values (names of 32 bytes and more): most significant group
+      first, each continuation group stored minus one
     """
-    if value < 128:
-        return bytes([value])
-    # Git's broken format: split into two bytes that add up to the value
-    return bytes([0x80, value - 0x80])
+    result = [value & 0x7F]
+    value >>= 7
+    while value:
+        value -= 1
+        result.append(0x80 | (value & 0x7F))
+        value >>= 7
+    return bytes(reversed(result))
 
 
 def _decode_reftable_suffix_and_type(stream: BinaryIO) -> int | None:
-    """Decode suffix_and_type handling both Git's broken and standard formats."""
+    """Decode suffix_and_type handling both Git's and the standard LEB128 format."""
     pos = stream.tell()
     first_byte_data = stream.read(1)
     if not first_byte_data:
@@ -139,30 +146,33 @@ def _decode_reftable_suffix_and_type(stream: BinaryIO) -> int | None:
     if not (first_byte & 0x80):
         return first_byte
 
-    # Two byte case - handle missing second byte
+    # Multi-byte case - handle missing second byte
     second_byte_data = stream.read(1)
     if not second_byte_data:
         stream.seek(pos)
         return first_byte & 0x7F
 
-    second_byte = second_byte_data[0]
+    # Git's format: big-endian groups, continuation groups stored minus one
+    git_value = first_byte & 0x7F
+    byte = first_byte
+    next_byte_data = second_byte_data
+    truncated = False
+    while byte & 0x80:
+        if not next_byte_data:
+            truncated = True
+            break
+        byte = next_byte_data[0]
+        git_value = ((git_value + 1) << 7) | (byte & 0x7F)
+        if byte & 0x80:
+            next_byte_data = stream.read(1)
 
-    # Multi-byte varint case - delegate to proper decoder
-    if second_byte & 0x80:
-        stream.seek(pos)
-        return decode_varint_from_stream(stream)
-
-    # Two-byte case: choose between Git's format and standard LEB128
-    git_value = first_byte + second_byte
-    git_suffix_len = git_value >> 3
-    git_value_type = git_value & 7
-
-    # Use Git's format if it produces reasonable values
-    if git_suffix_len < MAX_REASONABLE_SUFFIX_LEN and git_value_type <= 3:
+    # Use Git's format if it produces a valid value type
+    if not truncated and (git_value & 7) <= 3:
         return git_value
 
     # Fall back to standard LEB128
-    return (first_byte & 0x7F) | ((second_byte & 0x7F) << 7)
+    stream.seek(pos)
+    return decode_varint_from_stream(stream)
 
 
 # Reftable magic bytes
